@@ -587,6 +587,16 @@ def _run_symlinks(griffe, acc):
                     with listing.Listing(listing.ascending if order == "asc" else listing.descending):
                         loader = griffe.GriffeLoader(search_paths=[os.path.join(d, "site")], allow_inspection=False)
                         got = _sl_summary(loader.load("pkg", find_stubs_package=True))
+                    if lname == "plain":
+                        # the same package requested through one of its modules, two and three names deep (the loader's default entry: a path is tried first)
+                        for spec in ("pkg.mod", "pkg.sub.deep"):
+                            with listing.Listing(listing.ascending if order == "asc" else listing.descending):
+                                loader2 = griffe.GriffeLoader(search_paths=[os.path.join(d, "site")], allow_inspection=False)
+                                loader2.load(spec, find_stubs_package=True)
+                            got2 = _sl_summary(loader2.modules_collection["pkg"])
+                            if got2 != got:
+                                bad = sorted(k for k in set(got) | set(got2) if got.get(k) != got2.get(k))[0]
+                                acc.violation(f"symlinks/requested-through-module/{len(spec.split('.'))}-names", f"load({spec!r}, find_stubs_package=True): {bad} is {got2.get(bad)}, requested as 'pkg' {got.get(bad)}", {**cd, "spec": spec}, None, size=1)
                 except Exception as e:  # noqa: BLE001
                     acc.violation(f"symlinks/raise/{type(e).__name__}/{lname}", f"load with the stubs distribution raised {e!r}", cd, None, size=1)
                     continue
